@@ -8,6 +8,7 @@ import (
 	"context"
 	"encoding/json"
 	"fmt"
+	"os"
 	"sort"
 	"strings"
 	"time"
@@ -41,6 +42,9 @@ func genCtl(r *simrt.Rand, tier string, flavor string) json.RawMessage {
 	if (flavor == "C20" || flavor == "C18") && r.Bool(0.15) {
 		return genCtlRemoveLeader(r, c)
 	}
+	if flavor == "C20" && r.Bool(0.12) {
+		return genCtlRejoinThroughLaggingMember(r, c)
+	}
 	slot := 0
 	nodes := c.Nodes
 	maxNodes := 5
@@ -65,7 +69,10 @@ func genCtl(r *simrt.Rand, tier string, flavor string) json.RawMessage {
 			c.Ops = append(c.Ops, W3Op{K: "join", Node: nodes, Async: flavor == "C18" && r.Bool(0.5)})
 		case x < 62 && nodes > 1:
 			t := r.Range(2, nodes)
-			c.Ops = append(c.Ops, W3Op{K: "removenode", Node: 1, A: t})
+			c.Ops = append(c.Ops, W3Op{K: "removenode", Node: r.Range(1, nodes), A: t})
+			if r.Bool(0.4) { // the machine comes back later and joins again (same id and address)
+				c.Ops = append(c.Ops, W3Op{K: "wait", Ms: r.Range(100, 4000)}, W3Op{K: "rejoin", Node: t, A: r.Range(1, nodes), B: r.Intn(2)})
+			}
 		case x < 72:
 			n := r.Range(1, nodes)
 			c.Ops = append(c.Ops, W3Op{K: "crash", Node: n}, W3Op{K: "wait", Ms: r.Range(100, 3000)}, W3Op{K: "restart", Node: n})
@@ -193,12 +200,66 @@ func genCtlRemoveLeader(r *simrt.Rand, c W3Case) json.RawMessage {
 	return b
 }
 
+// joinList: the addresses a starting node is given (cmd/anndb --join a,b,c): the member
+// it should ask first, then every other node in order.
+func joinList(self, first, n int) []int {
+	var out []int
+	if first >= 1 && first <= n && first != self {
+		out = append(out, first)
+	}
+	for j := 1; j <= n; j++ {
+		if j != self && j != first {
+			out = append(out, j)
+		}
+	}
+	return out
+}
+
+// genCtlRejoinThroughLaggingMember: a member is cut off, another node is removed through
+// a third one (the cut-off member cannot apply the removal), the removed node is taken
+// out of service; then the network heals and the removed node at once announces itself
+// again, to the member that has not caught up yet.
+func genCtlRejoinThroughLaggingMember(r *simrt.Rand, c W3Case) json.RawMessage {
+	c.Nodes = r.Range(4, 5)
+	c.Faults = false
+	c.Cfg.Net = NetCfg{MinLatMs: 1, JitterMs: r.Range(0, 10)}
+	perm := r.Perm(c.Nodes)
+	var x, m1, m2 int
+	for _, v := range perm {
+		if v+1 >= 2 && x == 0 {
+			x = v + 1
+		}
+	}
+	for _, v := range perm {
+		if v+1 != x && m1 == 0 {
+			m1 = v + 1
+		} else if v+1 != x && v+1 != m1 && m2 == 0 {
+			m2 = v + 1
+		}
+	}
+	if r.Bool(0.5) {
+		c.Ops = append(c.Ops, W3Op{K: "create", Node: 1, DS: 1, P: r.Range(1, 2), R: r.Range(1, 3)})
+	}
+	c.Ops = append(c.Ops,
+		W3Op{K: "wait", Ms: r.Range(20000, 22000)}, // the handshakes of the initial members settle
+		W3Op{K: "isolate", Node: m2}, W3Op{K: "wait", Ms: r.Range(300, 2500)},
+		W3Op{K: "removenode", Node: m1, A: x},
+		W3Op{K: "heal"},
+		W3Op{K: "rejoin", Node: x, A: m2})
+	if r.Bool(0.5) {
+		c.Ops = append(c.Ops, W3Op{K: "wait", Ms: r.Range(500, 3000)}, W3Op{K: "crash", Node: m2}, W3Op{K: "restart", Node: m2})
+	}
+	b, _ := json.Marshal(CtlCase{W3: c})
+	return b
+}
+
 type ctlState struct {
 	removed        map[int]bool // node index -> removal acknowledged (node stopped for good)
 	joinAcked      map[int]bool // node index -> its join handshake completed at least once
 	joinTried      map[int]bool
 	dsAck          map[int]string // slot -> present | absent | unknown
 	removalUnknown map[int]bool
+	rejoined       map[int]bool // node index -> removed once and announced itself again (listed only once that join is acknowledged)
 }
 
 // execCtlOps runs the control-plane steps (the data-plane engine ignores them).
@@ -242,7 +303,7 @@ func (r *W3Run) execCtlOps(st *ctlState) {
 			if op.Node != len(s.nodes)+1 {
 				continue
 			}
-			n := s.addNode([]int{1})
+			n := s.addNode(joinList(len(s.nodes)+1, 1, len(s.nodes)))
 			st.joinTried[n.idx] = true
 			if err := s.startNode(n); err != nil {
 				r.viol("node-start-failed/"+restartClass(err), "new node n%d could not start: %v", n.idx, err)
@@ -254,8 +315,61 @@ func (r *W3Run) execCtlOps(st *ctlState) {
 			} else {
 				s.runFor(20 * time.Millisecond)
 			}
+		case "rejoin":
+			// a removed node (taken out of service) is brought back: same id, same address,
+			// its old disk (B=0) or an empty one (B=1); it announces itself to member A first
+			if op.Node < 2 || op.Node > len(s.nodes) || !st.removed[op.Node] {
+				continue
+			}
+			n := s.nodes[op.Node-1]
+			if n.alive || !n.retired || n.limbo {
+				continue
+			}
+			n.retired = false
+			st.removed[op.Node] = false
+			st.rejoined[op.Node] = true
+			blank := op.B == 1
+			if blank {
+				// A blank disk is only legitimate for a node that no raft group can still
+				// count as a member: the removal was acknowledged for the cluster's own
+				// group, the partition groups follow later (or never). The operator only
+				// wipes the machine while the catalogue is empty.
+				for _, m := range s.nodes {
+					if m.alive && m.parts != nil {
+						if ds, ok := m.parts.DatasetManager.VerifDatasets(); !ok || len(ds) > 0 {
+							blank = false
+						}
+					}
+				}
+			}
+			if blank {
+				os.RemoveAll(n.dir)
+				os.MkdirAll(n.dir, 0755)
+				if r.mon != nil {
+					r.mon.forgetDisk(n)
+				}
+			}
+			n.join = nil
+			for _, j := range joinList(n.idx, op.A, len(s.nodes)) {
+				n.join = append(n.join, s.nodes[j-1].addr)
+			}
+			if err := s.startNode(n); err != nil {
+				r.viol("node-start-failed/"+restartClass(err), "removed node n%d could not start again: %v", n.idx, err)
+				return
+			}
+			s.out.Stat("membership_rejoins_of_removed_nodes", 1)
+			s.runUntil(func() bool { return n.joined || !n.alive }, 30*time.Second)
 		case "removenode":
-			if op.A < 2 || op.A > len(s.nodes) || st.removed[op.A] || !s.nodes[0].alive {
+			if op.A < 2 || op.A > len(s.nodes) || st.removed[op.A] {
+				continue
+			}
+			via := s.nodes[0]
+			if op.Node >= 1 && op.Node <= len(s.nodes) && op.Node != op.A {
+				if v := s.nodes[op.Node-1]; v.alive && v.joined && !v.limbo && !v.retired {
+					via = v
+				}
+			}
+			if !via.alive || !via.joined || via.limbo || via.retired {
 				continue
 			}
 			// an operator can only remove a node while the remaining members form a majority
@@ -274,7 +388,7 @@ func (r *W3Run) execCtlOps(st *ctlState) {
 				s.out.Stat("removals_skipped_no_quorum", 1)
 				continue
 			}
-			via, target := s.nodes[0], s.nodes[op.A-1]
+			target := s.nodes[op.A-1]
 			// A removal that overlaps a join handshake of the same node has no determinate
 			// outcome: the member that handles the join may propose it before or after the
 			// removal (a request of a crashed incarnation can still arrive late, a proposal
@@ -364,7 +478,7 @@ func execCtl(prop string, raw json.RawMessage, wantLog bool) (out Outcome) {
 		return
 	}
 	c := cc.W3
-	st := &ctlState{removed: map[int]bool{}, joinAcked: map[int]bool{}, joinTried: map[int]bool{}, dsAck: map[int]string{}, removalUnknown: map[int]bool{}}
+	st := &ctlState{removed: map[int]bool{}, joinAcked: map[int]bool{}, joinTried: map[int]bool{}, dsAck: map[int]string{}, removalUnknown: map[int]bool{}, rejoined: map[int]bool{}}
 	runScenario(&c, prop, &out, wantLog, func(r *W3Run) {
 		r.zeroOnly = true
 		// control-plane steps are interleaved with the generic ones by position: run them first
@@ -372,7 +486,7 @@ func execCtl(prop string, raw json.RawMessage, wantLog bool) (out Outcome) {
 		ops := r.c.Ops
 		for i := 0; i < len(ops); i++ {
 			switch ops[i].K {
-			case "create", "delete", "join", "removenode":
+			case "create", "delete", "join", "removenode", "rejoin":
 				r.c.Ops = ops[i : i+1]
 				r.execCtlOps(st)
 			default:
@@ -514,7 +628,7 @@ func execCtl(prop string, raw json.RawMessage, wantLog bool) (out Outcome) {
 					if st.removed[n.idx] || st.removalUnknown[n.idx] {
 						continue
 					}
-					if n.idx <= r.c.Nodes || (n.alive && n.joined) {
+					if (n.idx <= r.c.Nodes && !st.rejoined[n.idx]) || (n.alive && n.joined) {
 						want[n.id] = n.addr
 					}
 				}
